@@ -197,12 +197,21 @@ pub fn hex(b: &[u8]) -> String {
     s
 }
 
+/// sort column of a `D key` line: BIP67 order on the compressed encoding; the two encodings of
+/// one point are told apart by a trailing flag byte (compressed first), as they are pushed
+/// differently
+pub fn bip67_sort(k: &miniscript::bitcoin::PublicKey) -> Vec<u8> {
+    let mut sort = k.inner.serialize().to_vec();
+    sort.push(if k.compressed { 0 } else { 1 });
+    sort
+}
+
 /// `D` lines: atom tables for the driver.
 pub fn emit_defs(out: &mut Out) {
     for id in (0..10).chain(100..104) {
         let k = full_key(id);
         let ser = k.to_bytes();
-        let sort = k.inner.serialize();
+        let sort = bip67_sort(&k);
         let pkh = hash160::Hash::hash(&ser);
         out.line(&format!("D key {} {} {} {}", id, hex(&ser), hex(&sort), hex(pkh.as_byte_array())), "ok");
     }
